@@ -60,8 +60,15 @@ const NKEY: &str = "n";
 fn gen(rng: &mut Rng) -> Program {
     // newer-strategy databases: one writer only (with two, a stale versioned write that loses the
     // resolution is acknowledged without being stored, so "acknowledged" would not imply "notified")
-    let strategy = if rng.chance(1, 3) { "newer" } else { "none" }.to_string();
-    let nw = if strategy == "newer" { 1 } else { rng.range(1, 2) as usize };
+    // arbiter-strategy databases (one case in seven): an arbiter session is registered and never answers, so a
+    // conflicting write is put aside (error reply) and the key keeps its value: nothing may be notified for it
+    let strategy = match rng.below(7) {
+        0 | 1 => "newer",
+        2 => "arbiter",
+        _ => "none",
+    }
+    .to_string();
+    let nw = if strategy != "none" { 1 } else { rng.range(1, 2) as usize };
     let ns = rng.range(1, 2) as usize;
     let mut uniq = 0;
     let mut last_val: std::collections::BTreeMap<String, String> = std::collections::BTreeMap::new();
@@ -229,6 +236,13 @@ fn execute(prog: Program, wire: bool) -> Outcome {
     };
     admin.exec("set a i0");
     admin.exec("set b i0");
+    let mut _arbiter: Option<Session> = None;
+    if prog.strategy == "arbiter" {
+        let mut a = Session::admin(&dbs);
+        a.exec("use-db d tok");
+        a.exec("arbiter");
+        _arbiter = Some(a);
+    }
     if wire && !w.wait_listening(0, 1_000) {
         return out;
     }
